@@ -88,9 +88,9 @@ Proof. reflexivity. Qed.
 Lemma flag_push_mode s m : s_loop_detected (push_mode s m) = s_loop_detected s.
 Proof. reflexivity. Qed.
 Lemma flag_pop_mode s : s_loop_detected (pop_mode s) = s_loop_detected s.
-Proof. unfold pop_mode. destruct (s_modes s); reflexivity. Qed.
+Proof. unfold pop_mode. destruct (s_modes s); [rewrite flag_push_mode; apply flag_emit_error|reflexivity]. Qed.
 Lemma flag_note s : s_loop_detected (note_observe_lines s) = s_loop_detected s.
-Proof. unfold note_observe_lines. destruct (g_line_debt _); reflexivity. Qed.
+Proof. reflexivity. Qed.
 Lemma flag_add_line d s b c r s' : buf_add_line d s b c = Done r s' -> s_loop_detected s' = s_loop_detected s.
 Proof. unfold buf_add_line. intros H. crush_flag H; reflexivity. Qed.
 Lemma flag_last_line d s r s' : last_line_or_add d s = Done r s' -> s_loop_detected s' = s_loop_detected s.
